@@ -42,11 +42,11 @@ def gen_case(rng):
     mode = rng.choice(["initialize", "scan", "scan+initialize",
                        "scan||initialize", "scan||initialize",
                        "two-masters", "cancelled-scan+scan",
-                       "reinit-after-insert"])
+                       "reinit-after-insert", "reconnect"])
     n = rng.randint(2, 40)
     if mode == "scan||initialize":
         n = rng.randint(2, 6)      # few addresses: collisions are likely
-    if mode in ("cancelled-scan+scan", "reinit-after-insert"):
+    if mode in ("cancelled-scan+scan", "reinit-after-insert", "reconnect"):
         n = rng.randint(2, 8)
     lo = rng.choice([1, 100, 1000, 30000])
     slack = rng.choice([0, 1, 2, 5, 20])
@@ -140,6 +140,25 @@ def run_case(case):
                 resp = resp[:frng.randint(16, len(resp) - 1)]
                 result["truncated"] = result.get("truncated", 0) + 1
             return [(case["delays"][k[0] % len(case["delays"])], resp)]
+        if case["mode"] == "reconnect":
+            # the master object connects (its own connect()), starts on the
+            # first terminals, connects a second time while their probes
+            # are on the wire (FastEtherCat does so when connect() is
+            # followed by run(); a reconnect does, too), then initialises
+            # the others
+            await bus.connect(ec, loop, b, policy)
+            ts = [Terminal(ec) for _ in range(n)]
+            half = max(1, n // 2)
+            t1 = [asyncio.ensure_future(ts[i].initialize(relative=-i))
+                  for i in range(half)]
+            for _ in range(case["stagger"][0] % 12):
+                await asyncio.sleep(0.0001)
+            await bus.connect(ec, loop, b, policy)
+            await asyncio.wait_for(asyncio.gather(
+                *t1, *[ts[i].initialize(relative=-i)
+                       for i in range(half, n)]), 5000)
+            result["positions"] = [t.position for t in ts]
+            return
         bus.attach(ec, loop, b, policy)
         if case["mode"] == "two-masters":
             # a second master on the same segment (same ethertype): both
@@ -360,7 +379,8 @@ def run_shard(params):
 def finalize(res, tier, seed):
     c = res.counters
     for m in ("initialize", "scan", "scan+initialize", "scan||initialize",
-              "two-masters", "cancelled-scan+scan", "reinit-after-insert"):
+              "two-masters", "cancelled-scan+scan", "reinit-after-insert",
+              "reconnect"):
         if not c.get(f"mode[{m}]"):
             res.inconc(f"mode {m} never ran")
 
